@@ -424,14 +424,7 @@ def rule_lvalue_destination(chk):
         if st.endswith("TypeLayer") and any(short(a["adt"]) == "DimensionCast" for a in F.exprs(m, "Adt")):
             if dm is None or len(list(F.walk(m))) > len(list(F.walk(dm))):
                 dm = m
-    names = {}
-    for b in F.walk(find["thir"]):
-        if b.get("k") == "Bind" and b.get("name") in ("source_l", "dest_l", "source_id", "dest_id"):
-            names.setdefault(b["name"], b["id"])
-    for p_ in find["params"]:
-        pat = p_.get("pat") or {}
-        if pat.get("k") == "Bind" and pat.get("name") in ("source", "dest"):
-            names[pat["name"]] = pat["id"]
+    names = c16.find_roles(find, dm) if dm is not None else {}
     need = ["source_l", "dest_l", "dest", "source_id", "dest_id"]
     if not chk.anchor("C03.anchor/find-dimension-table", dm is not None and all(n in names for n in need) and dm, "the dimension-cast match of find and its inputs %s" % need, where(find)):
         return
